@@ -565,14 +565,14 @@ theorem sim_rev : ∀ (m : Nat) (T : DTask), RevQ m T := by
         exact ⟨d, DOk.xexpr_pure hv hout, hg⟩
       | call f args =>
         simp only [taskOf, run, bind_ok, mapSt_ok] at h
-        obtain ⟨vs, hvs, mc, hmc, scope, hsc, s1, h2, rfl⟩ := h
+        obtain ⟨fv, hfv, vs, hvs, mc, hmc, scope, hsc, s1, h2, rfl⟩ := h
         obtain ⟨dm, hdm, ms⟩ := getMacro_sim_rev hg hmc
         obtain ⟨hp, hdw, hd1, hd2⟩ := ms
-        rw [← hlook] at hvs hdm
+        rw [← hlook] at hfv hvs
         rw [hd1, hd2] at h2
         obtain ⟨d', h3, g⟩ := ih k (Nat.lt_succ_self k) (.dirs dm.dirs dm.target) (scope ++ loc) d
           (st.push scope) o s1 h2 hdw (by simp [St.push, hl]) (hg.of_same rfl rfl rfl) trivial
-        exact ⟨d', DOk.xexpr_call hvs hdm (by rw [hp]; exact hsc) h3, g.of_same rfl rfl rfl⟩
+        exact ⟨d', DOk.xexpr_call hfv hvs hdm (by rw [hp]; exact hsc) h3, g.of_same rfl rfl rfl⟩
     | loop v items D t =>
       have hdw : DirsWF D t := hwf
       cases items with
